@@ -18,7 +18,10 @@ C = "http://schemas.openxmlformats.org/drawingml/2006/chart"
 # "empty, attribute-less formatting containers" (property text).  ROOTS may start an erasable subtree, INNER may only
 # occur inside one.  Fixed by hand: an accessor that adds anything else is a change.
 ROOTS = {f"{{{A}}}pPr", f"{{{A}}}defRPr", f"{{{A}}}rPr", f"{{{A}}}endParaRPr", f"{{{A}}}tcPr", f"{{{A}}}ln", f"{{{P}}}txBody", f"{{{C}}}txPr",
-         f"{{{C}}}spPr", f"{{{C}}}marker", f"{{{P}}}sldIdLst"}
+         f"{{{C}}}spPr", f"{{{C}}}marker",
+         # the id lists of a presentation / slide master part: an EMPTY list lists nothing (Presentation.slides,
+         # .slide_masters, SlideMaster.slide_layouts on a part that has none)
+         f"{{{P}}}sldIdLst", f"{{{P}}}sldMasterIdLst", f"{{{P}}}sldLayoutIdLst"}
 INNER = {f"{{{A}}}bodyPr", f"{{{A}}}lstStyle", f"{{{A}}}p"}
 
 # accessors the documentation describes as creating content when it is absent (property text: "accessors documented as
@@ -96,6 +99,7 @@ def key_of(obj):
 def traverse(root, access, rng, max_objects=4000, max_depth=9, max_items=6, skip=frozenset()):
     """access(obj, cls, name, ctx_el) -> value (may raise).  Returns the number of objects visited."""
     seen = set()
+    alive = []      # keeps every visited element proxy alive so that id() stays unique (determinism)
     q = deque([(root, 0, None)])
     n = 0
     while q and n < max_objects:
@@ -104,6 +108,7 @@ def traverse(root, access, rng, max_objects=4000, max_depth=9, max_items=6, skip
         if k in seen:
             continue
         seen.add(k)
+        alive.append((obj, getattr(obj, "_element", None)))
         n += 1
         ctx_el = part_element(obj, ctx_el)
         cls = type(obj)
